@@ -1191,3 +1191,57 @@ def add_mirror_strand_clone(src, sc, g, reads_per_chain=(3, 5), name_prefix="m")
             sc["reads"].append(exact_read("%s%s_%d" % (name_prefix, g["id"], k), name, strand, ex,
                                           polya=src.int(20, 30)))
     return clone
+
+
+def gen_islands_locus(src, nested=True):
+    """A long annotated gene G whose reads form two separate clusters (two isoforms that do not overlap each other:
+    alternative promoters / sparse coverage), optionally with a gene H nested between them that has reads of its own,
+    so that the regions are processed in the order G, H, G.  Each cluster holds reads of the annotated isoform and of an
+    unannotated variant (exon skipping / an additional exon).  Scenario without options."""
+    from vlib import build
+    strand = src.choice(["+", "-"])
+    base = src.int(600, 1500)
+
+    def chain(lengths, gaps, start):
+        out, p_ = [], start
+        for i, ln in enumerate(lengths):
+            out.append([p_, p_ + ln - 1])
+            if i < len(gaps):
+                p_ += ln + gaps[i]
+        return out
+    t1 = chain([src.int(150, 250) for _ in range(4)], [src.int(250, 450) for _ in range(3)], base)
+    mid0 = t1[-1][1] + src.int(1200, 2000)
+    h = chain([src.int(150, 250) for _ in range(3)], [src.int(250, 400) for _ in range(2)], mid0)
+    t2 = chain([src.int(150, 250) for _ in range(4)], [src.int(250, 450) for _ in range(3)],
+               h[-1][1] + src.int(1200, 2000))
+    genes = [{"id": src.choice(["G", "sox2", "G1"]), "chr": "chr1", "strand": strand, "canon": "canon",
+              "transcripts": [{"id": "G.t1", "exons": t1}, {"id": "G.t2", "exons": t2}]}]
+    hstrand = src.choice(["+", "-"])
+    if nested:
+        genes.append({"id": "H", "chr": "chr1", "strand": hstrand, "canon": "canon",
+                      "transcripts": [{"id": "H.t1", "exons": h}]})
+    reads, novel = [], []
+    k = 0
+
+    def add(ch, st, n, prefix):
+        nonlocal k
+        for _ in range(n):
+            k += 1
+            reads.append(exact_read("%s%d" % (prefix, k), "chr1", st, ch, polya=src.int(22, 32)))
+    for t in (t1, t2):
+        add(t, strand, src.int(3, 6), "k")
+        if src.bool(0.8):
+            nv = [t[0], t[2], t[3]] if src.bool(0.5) else t[:2] + [[t[2][0], t[2][1] - src.int(40, 70)], t[3]]
+            novel.append(nv)
+            add(nv, strand, src.int(4, 7), "n")
+    if nested:
+        add(h, hstrand, src.int(3, 6), "h")
+    overrides = []
+    for g in genes:
+        for t in g["transcripts"]:
+            overrides += build.splice_overrides("chr1", t["exons"], g["strand"])
+    for nv in novel:
+        overrides += build.splice_overrides("chr1", nv, strand)
+    return {"chroms": [["chr1", t2[-1][1] + src.int(900, 2000), src.int(1, 10 ** 6)]], "genes": genes,
+            "overrides": overrides, "reads": reads, "nfiles": 1, "novel": [{"chr": "chr1", "exons": nv} for nv in novel],
+            "gtf": {"gene_records": True, "transcript_records": True}, "template": "islands"}
